@@ -263,9 +263,29 @@ def run(ctx):
                 alt = None
         for ch in core.chunks(hs, 600):
             hargs.append((name, b, ch, alt))
+    # (b5) scale-dependent shape: leads that declare a header of 2^31 bytes and more (zck_read_lead reads the lead only); the
+    # length pin is compared with the stored value in full - neither its low 32 bits nor a narrowed copy
+    class P:
+        pass
+    huge = {}
+    for hsize in (1 << 31, (1 << 31) + 143, (1 << 32) - 40, 1 << 32, (1 << 32) + 143, (1 << 33) + 7, (1 << 40) + 1):
+        dg = zckref.digest(1, b"huge%d" % hsize)
+        lead = zckref.MAGIC_FILE + zckref.enc_ci(1) + zckref.enc_ci(hsize) + dg
+        q = P(); q.htype, q.hdigest, q.header_len = 1, dg, len(lead) + hsize
+        nm = "lead:hsize=%d" % hsize
+        huge[nm] = q
+        tot = q.header_len
+        hs = []
+        for v in sorted({tot, tot & 0xffffffff, tot & 0x7fffffff, tot - (1 << 32), tot + (1 << 32), tot ^ (1 << 31), tot - 1, tot + 1, hsize, 143, len(lead)}):
+            if v <= 0:
+                continue
+            hs.append([("L", v), ("R", None)])
+            hs.append([("L", v), ("V", None), ("V", None), ("R", None)])
+            hs.append([("T", 1), ("D", ("ok-lower", dg.hex())), ("L", v), ("V", None), ("R", None)])
+        hargs.append((nm, lead, hs, None))
     bmap = dict(bs)
     for (name, outs), (n2, b, hs, alt) in zip(core.pmap(run_hist, hargs), hargs):
-        p = zckref.parse(b)
+        p = huge[name] if name in huge else zckref.parse(b)
         palt = zckref.parse(alt) if alt else None
         for h, (done, st, res) in zip(hs, outs):
             ctx.states += 1; ctx.transitions += len(h); ctx.evaluations += 1
@@ -355,9 +375,24 @@ def run_pinned_subst(arg):
     return res
 
 
+def lead_only(base):
+    """stand-in for the parse of a file that consists of a lead only (declared header of 2^31 bytes and more)"""
+    class P:
+        pass
+    q = P()
+    q.htype, o = zckref.dec_ci(base, 5)[0], 5 + zckref.dec_ci(base, 5)[1]
+    hsize, n = zckref.dec_ci(base, o)
+    q.hdigest = base[o + n:o + n + zckref.HASH_SIZES[q.htype]]
+    q.header_len = o + n + len(q.hdigest) + hsize
+    return q
+
+
 def replay(case, quiet=True):
     base = bytes.fromhex(case["base"])
-    p = zckref.parse(base)
+    try:
+        p = zckref.parse(base)
+    except zckref.Invalid:
+        p = lead_only(base)
     if case["kind"] == "hist":
         h = [(o, tuple(v) if isinstance(v, list) else v) for o, v in case["ops"]]
         alt = bytes.fromhex(case["alt"]) if case.get("alt") else None
